@@ -133,7 +133,13 @@ func runRing(in *bufio.Scanner, w *bufio.Writer) {
 		case "o":
 			common.Guard(w, "oldest", func() { fmt.Fprintf(w, "< o %d\n", tagOf(fl.Oldest())) })
 		case "c":
-			common.Guard(w, "recent", func() { fmt.Fprintf(w, "< c %d\n", tagOf(fl.CopyRecent())) })
+			common.Guard(w, "recent", func() {
+				if fr := fl.CopyRecent(); fr == nil {
+					fmt.Fprintln(w, "< c none")
+				} else {
+					fmt.Fprintf(w, "< c %d\n", tagOf(fr))
+				}
+			})
 		case "u":
 			common.Guard(w, "current", func() { fmt.Fprintf(w, "< u %d\n", tagOf(fl.Current())) })
 		}
